@@ -45,7 +45,14 @@ def medium_members(tier):
     return [(n, k, lat) for lat in (True, False) for n in m["n"] for k in range(m["k"])]
 
 
+# beyond 64 points in total the cost matrix has more than 4096 entries (size-triggered search strategies)
+LARGER_PAIRS = [(33, 40), (40, 33), (33, 70), (70, 40), (40, 40), (70, 70), (66, 3), (2, 90)]
+
+
 def cases(tier):
+    for na, nb in LARGER_PAIRS:
+        for lat in (True, False):
+            yield {"kind": "medium", "a": [na, 0, lat], "b": [nb, 1, lat], "few_orders": True}
     mem = medium_members(tier)
     for a in range(len(mem)):
         for b in range(len(mem)):
@@ -98,6 +105,8 @@ def run_medium(case, ctx):
             orders = [base[r:] + base[:r] for r in range(0, k, max(1, k // 8))]
             orders += [o[::-1] for o in orders]
             orders += [base[::2] + base[1::2], base[1::2] + base[::2]]
+            if case.get("few_orders"):
+                orders = [orders[1], orders[-1]]
             for order in orders:
                 HKSeam.set_order(tuple(order))
                 vo, _ = call_warn(ctx, persim.bottleneck, farr(S), farr(T))
